@@ -147,9 +147,9 @@ Proof.
   assert (M45 : forall x, done s4 x -> done s7 x).
   { intros x Hx. eapply frame_done_mono; [exact F7|]. eapply frame_done_mono; [exact F6|]. now apply done_emit. }
   split.
-  - apply Good_close with (k := k) (r := r) (v := v); auto.
+  - apply Good_close with (order := order) (k := k) (r := r) (v := v); auto.
     + destruct F7 as (He7 & _ & _ & _ & Hm7 & _). rewrite Hm7 by (left; now left).
-      rewrite He7. reflexivity.
+      rewrite He7. unfold s6, complete; cbn [st_mem set_db set_mem]. rewrite get_update_same. reflexivity.
     + fold bk. intros x Hx. rewrite !in_app_iff in Hx. destruct Hx as [Hx|[Hx|Hx]].
       * apply M45. eapply frame_done_mono; [exact F4|]. eapply frame_done_mono; [exact F3|].
         eapply frame_done_mono; [exact F2|]. now apply D1.
@@ -159,3 +159,122 @@ Proof.
     eapply provs_trans; [exact P3|]. eapply provs_trans; [exact P4|].
     eapply provs_trans; [|exact P7]. exists [EComplete k v; EAvail k]. split; [reflexivity|]. repeat constructor.
 Qed.
+
+Lemma scan_good : forall E k stack r ds s,
+  (rank k <= n)%nat -> (forall y, In y stack -> (rank k < rank y)%nat) ->
+  res_builtAt r <> 0 -> res_sig r = r_sig (rules k) -> valid rules env k r = true ->
+  G E s -> get (st_mem s) k = r -> ~ done s k ->
+  (forall d, In d ds -> (rank (d_key d) < rank k)%nat) ->
+  (forall d, In d (cdeps r) -> In d ds \/
+      (done s (d_key d) /\ res_computedAt (get (st_mem s) (d_key d)) <= res_builtAt r)) ->
+  exists s', scan rules env F order ens k stack r ds s = Ok s' /\ G E s' /\ provs_ok s s'.
+Proof.
+  intros E k stack r ds. induction ds as [|d ds IH]; intros s Hkn Hst Hb Hs Hval HG Hr Hnd Hrk Hproc; cbn [scan].
+  - eexists. split; [reflexivity|]. split; [|now apply provs_same_log].
+    apply Good_mark; auto.
+    + intros d Hd. destruct (Hproc d Hd) as [[]|[_ H]]. exact H.
+    + intros d Hd. destruct (Hproc d Hd) as [[]|[H _]]. exact H.
+  - assert (Hdn : (rank (d_key d) < n)%nat) by (specialize (Hrk d (or_introl eq_refl)); lia).
+    destruct (HensG E (k :: stack) s (d_key d) Hdn) as (s1 & E1 & G1 & P1); [|exact HG|].
+    { intros y [<-|Hy]; [apply Hrk; now left | specialize (Hst y Hy); specialize (Hrk d (or_introl eq_refl)); lia]. }
+    pose proof (HensF (k :: stack) s (d_key d)) as Hf. rewrite E1 in Hf. destruct Hf as [F1 Hdd].
+    rewrite E1.
+    assert (Hr1 : get (st_mem s1) k = r).
+    { rewrite <- Hr. apply F1. left. now left. }
+    pose proof (frame_notdone _ _ _ _ F1 Hnd) as Hnd1.
+    destruct (negb (d_order d) && (res_builtAt r <? res_computedAt (get (st_mem s1) (d_key d)))) eqn:Ec.
+    + destruct (run_good E k stack r (emit s1 (ENeed k InputRebuilt (Some (d_key d)))) Hkn Hst) as (s' & E2 & G2 & P2).
+      * now apply Good_emit.
+      * exact Hr1.
+      * intros H. apply Hnd1. now apply done_emit in H.
+      * exists s'. split; [exact E2|]. split; [exact G2|]. eapply provs_trans; [exact P1|].
+        eapply provs_trans; [|exact P2]. now apply provs_emit.
+    + destruct (IH s1) as (s' & E2 & G2 & P2); auto.
+      * intros d' Hd'. apply Hrk. now right.
+      * intros d' Hd'. destruct (Hproc d' Hd') as [[<-|Hin]|[Hdone Hle]].
+        -- right. split; [exact Hdd|]. apply in_cdeps in Hd'. destruct Hd' as (_ & Ho & _).
+           rewrite Ho in Ec. cbn in Ec. apply N.ltb_ge in Ec. exact Ec.
+        -- now left.
+        -- right. destruct F1 as (_ & _ & _ & _ & Hm1 & _). split.
+           ++ eapply frame_done_mono; [|exact Hdone]. pose proof (HensF (k :: stack) s (d_key d)) as Hf.
+              rewrite E1 in Hf. apply Hf.
+           ++ rewrite Hm1 by now right. exact Hle.
+      * exists s'. split; [exact E2|]. split; [exact G2|]. eapply provs_trans; eauto.
+Qed.
+
+Lemma ensure_body_good : forall E stack s k,
+  (rank k <= n)%nat -> (forall y, In y stack -> (rank k < rank y)%nat) -> G E s ->
+  exists s', ensure_body rules env F order ens stack s k = Ok s' /\ G E s' /\ provs_ok s s'.
+Proof.
+  intros E stack s k Hkn Hst HG. unfold ensure_body.
+  assert (Hnst : ~ In k stack) by (intros Hin; specialize (Hst k Hin); lia).
+  apply existsb_eqb_nIn in Hnst. rewrite Hnst.
+  destruct (N.eqb (res_builtAt (get (st_mem s) k)) (st_epoch s)) eqn:Ed.
+  { exists s. split; [reflexivity|]. split; [exact HG | apply provs_refl]. }
+  apply N.eqb_neq in Ed. fold (done s k) in Ed.
+  set (r0 := get (st_mem s) k) in *.
+  set (r := mkRes (res_value r0) (res_sig r0) (res_computedAt r0) (res_builtAt r0) (drop_single (res_deps r0))).
+  cbn [res_builtAt r].
+  assert (G1 : G E (set_mem s k r)).
+  { apply Good_set_mem_quiet; auto. cbn. apply drop_single_idem. }
+  assert (Hr1 : get (st_mem (set_mem s k r)) k = r) by (unfold set_mem; cbn; apply get_update_same).
+  assert (Hnd1 : ~ done (set_mem s k r) k).
+  { unfold done. rewrite Hr1. cbn. exact Ed. }
+  set (s1 := set_mem s k r) in *.
+  assert (Hrun : forall s2, G E s2 -> get (st_mem s2) k = r -> ~ done s2 k -> provs_ok s s2 ->
+            exists s', run rules env F order ens k stack r s2 = Ok s' /\ G E s' /\ provs_ok s s').
+  { intros s2 G2 Hr2 Hnd2 P2. destruct (run_good E k stack r s2 Hkn Hst G2 Hr2 Hnd2) as (s' & E' & G' & P').
+    exists s'. split; [exact E'|]. split; [exact G'|]. eapply provs_trans; eauto. }
+  assert (Hemit : forall e, prov_ok rules env F rank e ->
+            G E (emit s1 e) /\ get (st_mem (emit s1 e)) k = r /\ ~ done (emit s1 e) k /\ provs_ok s (emit s1 e)).
+  { intros e He. split; [now apply Good_emit|]. split; [exact Hr1|]. split.
+    - intros H. apply Hnd1. now apply done_emit in H.
+    - exists [e]. split; [reflexivity | now constructor]. }
+  destruct (N.eqb (res_builtAt r0) 0) eqn:Eb.
+  { destruct (Hemit (ENeed k NeverBuilt None) I) as (A & B & C & D). now apply Hrun. }
+  destruct (flagged s1 k).
+  { destruct (Hemit (ENeed k Forced None) I) as (A & B & C & D). now apply Hrun. }
+  destruct (negb (N.eqb (r_sig (rules k)) (res_sig r))) eqn:Es.
+  { destruct (Hemit (ENeed k SignatureChanged None) I) as (A & B & C & D). now apply Hrun. }
+  destruct (negb (valid rules env k r)) eqn:Ev.
+  { destruct (Hemit (EValid k false) I) as (A & B & C & D). apply Hrun.
+    - now apply Good_emit.
+    - exact B.
+    - intros H. apply C. now apply done_emit in H.
+    - eapply provs_trans; [exact D|]. now apply provs_emit. }
+  apply N.eqb_neq in Eb. apply negb_false_iff in Es, Ev. apply N.eqb_eq in Es.
+  destruct (Hemit (EValid k true) I) as (A & B & C & D).
+  assert (HkE : ~ E k). { intros H. apply Ed. now apply HG. }
+  assert (Hdeps : forall d, In d (res_deps r) -> (rank (d_key d) < rank k)%nat).
+  { intros d Hd. destruct G1 as (_ & _ & Hrows & _). specialize (Hrows k HkE). rewrite Hr1 in Hrows.
+    destruct Hrows as (v & _ & _ & Hm & _); [exact Eb | now symmetry|].
+    apply Hrank. apply Hm. cbn [res_deps r]. now rewrite drop_single_idem. }
+  destruct (scan_good E k stack r (res_deps r) (emit s1 (EValid k true))) as (s' & E' & G' & P'); auto.
+  - intros d Hd. left. now apply in_cdeps in Hd.
+  - exists s'. split; [exact E'|]. split; [exact G'|]. eapply provs_trans; eauto.
+Qed.
+
+End Main.
+
+Section Lift.
+Variable rules : key -> rule.
+Variable env : key -> N.
+Variable F : key -> N -> list value -> list N -> N -> N.
+Variable order : N -> key -> list dep -> list dep.
+Variable rank : key -> nat.
+Hypothesis Hrank : wf_rank rules rank.
+Hypothesis Hdisc : wf_disc rules.
+Hypothesis Horder : wf_order order.
+
+Theorem ensure_good : forall fuel E stack s k,
+  (rank k < fuel)%nat -> (forall y, In y stack -> (rank k < rank y)%nat) -> Good rules env F rank E s ->
+  exists s', ensure rules env F order fuel stack s k = Ok s' /\ Good rules env F rank E s' /\
+             provs_ok rules env F rank s s'.
+Proof.
+  induction fuel as [|f IH]; intros E stack s k Hk Hst HG; [lia|]. cbn [ensure].
+  apply ensure_body_good with (n := f); auto.
+  - intros st s0 k0. apply ensure_frame.
+  - lia.
+Qed.
+
+End Lift.
